@@ -112,7 +112,8 @@ def run_all(_):
                     calls.append({"npos": base_npos, "kws": [named[-1], u]})
         g = fn.__globals__
         orig = g.get("implementation")
-        for call in calls:
+        # every call is made twice: acceptance must not depend on what was tried before (a wrapper may keep state)
+        for call in [c for c in calls for _ in (0, 1)]:
             seen = []
 
             def spy(*a, **k):
